@@ -1,7 +1,10 @@
 package props
 
 import (
+	"math/big"
+
 	"fmt"
+	compact_time "github.com/kstenerud/go-compact-time"
 	"reflect"
 	"strings"
 	"unicode"
@@ -27,6 +30,9 @@ type C21Extra struct {
 	Pos  int    `json:"pos"`
 	Key  string `json:"key"`
 	Kind string `json:"kind"` // int | list | map | string | nested
+	// KeyKind: "" = the string Key; otherwise a key that is not a string and so can name no field:
+	// int | negint | bool | uid | rid | time | bigint (distinct per extra through its index)
+	KeyKind string `json:"key_kind,omitempty"`
 }
 
 type C21Case struct {
@@ -299,8 +305,15 @@ func init() {
 				c.Recase = append(c.Recase, mode)
 			}
 			for i, k := 0, rapid.IntRange(0, 2).Draw(t, "nextras"); i < k; i++ {
-				c.Extras = append(c.Extras, C21Extra{Pos: rapid.IntRange(0, 8).Draw(t, "xpos"), Key: fmt.Sprintf("zz_unknown_%d", i),
-					Kind: rapid.SampledFrom([]string{"int", "list", "map", "string", "nested"}).Draw(t, "xkind")})
+				x := C21Extra{Pos: rapid.IntRange(0, 8).Draw(t, "xpos"), Key: fmt.Sprintf("zz_unknown_%d", i),
+					Kind: rapid.SampledFrom([]string{"int", "list", "map", "string", "nested"}).Draw(t, "xkind")}
+				if rapid.IntRange(0, 2).Draw(t, "xnonstring") == 0 {
+					x.KeyKind = rapid.SampledFrom([]string{"int", "negint", "bool", "uid", "rid", "time", "bigint"}).Draw(t, "xkeykind")
+					if x.KeyKind == "bool" && i > 0 {
+						x.KeyKind = "int" // at most one boolean key (true) per document
+					}
+				}
+				c.Extras = append(c.Extras, x)
 			}
 			return c
 		},
@@ -320,6 +333,9 @@ func init() {
 			ctx.LabelIf(hasTag, "tagged")
 			ctx.LabelIf(hasEmb, "embedded")
 			ctx.LabelIf(len(c.Extras) > 0, "unknown-keys")
+			for _, x := range c.Extras {
+				ctx.LabelIf(x.KeyKind != "", "unknown key that is not a string")
+			}
 			ctx.LabelIf(c.CaseInsensitive, "case-insensitive")
 			ctx.LabelIf(c.Camel, "camel")
 			ctx.Label("omit:" + c.Omit)
@@ -364,7 +380,25 @@ func init() {
 				extraAt[p] = append(extraAt[p], x)
 			}
 			emitExtra := func(x C21Extra) {
-				doc = append(doc, ev.Event{K: ev.StringArray, AT: events.ArrayTypeString, S: x.Key})
+				n := int64(len(doc)) // makes every non-string key distinct
+				switch x.KeyKind {
+				case "int":
+					doc = append(doc, ev.Event{K: ev.Int, I: 1000 + n})
+				case "negint":
+					doc = append(doc, ev.Event{K: ev.Int, I: -1000 - n})
+				case "bool":
+					doc = append(doc, ev.Event{K: ev.True})
+				case "uid":
+					doc = append(doc, ev.Event{K: ev.UID, Bs: []byte{byte(n), 1, 2, 3, 4, 5, 6, 7, 8, 9, 10, 11, 12, 13, 14, 15}})
+				case "rid":
+					doc = append(doc, ev.Event{K: ev.Array, AT: events.ArrayTypeResourceID, U: uint64(len(x.Key)), Bs: []byte(x.Key)})
+				case "time":
+					doc = append(doc, ev.Event{K: ev.Time, T: compact_time.NewDate(2000+int(n), 1, 2)})
+				case "bigint":
+					doc = append(doc, ev.Event{K: ev.BigInt, Big: new(big.Int).Lsh(big.NewInt(1+n), 70)})
+				default:
+					doc = append(doc, ev.Event{K: ev.StringArray, AT: events.ArrayTypeString, S: x.Key})
+				}
 				switch x.Kind {
 				case "int":
 					doc = append(doc, ev.Event{K: ev.Int, I: 42})
